@@ -32,10 +32,14 @@ const (
 	FaultAccepted
 	FaultNoPayloadID
 	FaultStall
+	// FaultOutage: the engine goes away in the middle of the call - the connection is cut without an
+	// answer and nothing listens on the socket for OutageFor (a crash and restart of the execution
+	// client). A transport-level fault, unlike the JSON-RPC error object of FaultError.
+	FaultOutage
 )
 
 func (f FaultKind) String() string {
-	return [...]string{"none", "error", "INVALID", "SYNCING", "ACCEPTED", "no-payload-id", "stall"}[f]
+	return [...]string{"none", "error", "INVALID", "SYNCING", "ACCEPTED", "no-payload-id", "stall", "outage"}[f]
 }
 
 // Call is one engine API call as seen by the fake execution layer.
@@ -92,6 +96,64 @@ type ELSim struct {
 	calls   int
 	Log     []Call
 	StallBy time.Duration
+
+	OutageFor time.Duration
+	connMu    sync.Mutex
+	conns     []net.Conn
+	up        chan struct{} // closed while the engine is reachable
+}
+
+// trackLn remembers the accepted connections so that an outage can cut them.
+type trackLn struct {
+	net.Listener
+	el *ELSim
+}
+
+func (t trackLn) Accept() (net.Conn, error) {
+	c, err := t.Listener.Accept()
+	if err == nil {
+		t.el.connMu.Lock()
+		t.el.conns = append(t.el.conns, c)
+		t.el.connMu.Unlock()
+	}
+	return c, err
+}
+
+// outage cuts every connection, stops listening and comes back after OutageFor.
+func (el *ELSim) outage() {
+	el.connMu.Lock()
+	conns, ln := el.conns, el.ln
+	el.conns = nil
+	el.up = make(chan struct{})
+	up := el.up
+	el.connMu.Unlock()
+	ln.Close()
+	for _, c := range conns {
+		c.Close()
+	}
+	go func() {
+		time.Sleep(el.OutageFor)
+		_ = os.Remove(el.Path)
+		nl, err := net.Listen("unix", el.Path)
+		if err == nil {
+			el.connMu.Lock()
+			el.ln = trackLn{nl, el}
+			l := el.ln
+			el.connMu.Unlock()
+			go func() { _ = el.srv.ServeListener(l) }()
+		}
+		close(up)
+	}()
+}
+
+// WaitUp blocks until the engine is reachable again after an outage.
+func (el *ELSim) WaitUp() {
+	el.connMu.Lock()
+	up := el.up
+	el.connMu.Unlock()
+	if up != nil {
+		<-up
+	}
 }
 
 type engineAPI struct{ el *ELSim }
@@ -106,7 +168,7 @@ func NewELSim(genesis *engine.ExecutableData) (*ELSim, error) {
 		Dir: dir, Path: filepath.Join(dir, "geth.ipc"),
 		blocks: map[common.Hash]*elBlock{}, jobs: map[engine.PayloadID]*buildJob{},
 		Canonical: true, GasAmount: big.NewInt(0), Faults: map[int]FaultKind{},
-		StallBy: 1500 * time.Millisecond,
+		StallBy: 1500 * time.Millisecond, OutageFor: 900 * time.Millisecond,
 	}
 	el.blocks[genesis.BlockHash] = &elBlock{Data: *genesis}
 	el.Head = genesis.BlockHash
@@ -114,16 +176,22 @@ func NewELSim(genesis *engine.ExecutableData) (*ELSim, error) {
 	if err := el.srv.RegisterName("engine", &engineAPI{el}); err != nil {
 		return nil, err
 	}
-	el.ln, err = net.Listen("unix", el.Path)
+	nl, err := net.Listen("unix", el.Path)
 	if err != nil {
 		return nil, err
 	}
-	go func() { _ = el.srv.ServeListener(el.ln) }()
+	el.ln = trackLn{nl, el}
+	l := el.ln
+	go func() { _ = el.srv.ServeListener(l) }()
 	return el, nil
 }
 
 func (el *ELSim) Close() {
-	el.ln.Close()
+	el.WaitUp()
+	el.connMu.Lock()
+	ln := el.ln
+	el.connMu.Unlock()
+	ln.Close()
 	el.srv.Stop()
 	os.RemoveAll(el.Dir)
 }
@@ -310,6 +378,10 @@ func (api *engineAPI) ForkchoiceUpdatedV3(update engine.ForkchoiceStateV1, attrs
 		return engine.ForkChoiceResponse{PayloadStatus: engine.PayloadStatusV1{Status: s}}
 	}
 	switch f {
+	case FaultOutage:
+		finish("outage")
+		el.outage()
+		return engine.ForkChoiceResponse{}, errors.New("elsim: connection lost")
 	case FaultError:
 		finish("error")
 		return engine.ForkChoiceResponse{}, errors.New("elsim: injected error")
@@ -359,6 +431,10 @@ func (api *engineAPI) GetPayloadV4(id engine.PayloadID) (*engine.ExecutionPayloa
 		el.mu.Unlock()
 	}
 	switch f {
+	case FaultOutage:
+		finish("outage")
+		el.outage()
+		return nil, errors.New("elsim: connection lost")
 	case FaultError, FaultInvalid, FaultSyncing, FaultAccepted, FaultNoPayloadID:
 		finish("error")
 		return nil, errors.New("elsim: injected error")
@@ -433,6 +509,10 @@ func (api *engineAPI) NewPayloadV4(data engine.ExecutableData, hashes []common.H
 		el.mu.Unlock()
 	}
 	switch f {
+	case FaultOutage:
+		finish("outage")
+		el.outage()
+		return engine.PayloadStatusV1{}, errors.New("elsim: connection lost")
 	case FaultError, FaultNoPayloadID:
 		finish("error")
 		return engine.PayloadStatusV1{}, errors.New("elsim: injected error")
